@@ -639,6 +639,76 @@ func nsub(p *canvas.Path) int {
 	return n
 }
 
+// sliceCase: K1 for the slice model (PathEnc/Slices.v): re-slicings s[i:j], s[i:j:k] and appends on one float64 array, on real Go
+// slices. Appends are applied only to slices of the ORIGINAL array (the spare capacity Go gives a freshly allocated array is not
+// modelled); every slice's visible cells at the end are compared with the model.
+func sliceCase(o *out.W, r *rng.R, i int) {
+	n := r.Range(4, 16)
+	a0 := make([]float64, n)
+	for k := range a0 {
+		a0[k] = float64(k + 1)
+	}
+	len0 := r.Range(1, n)
+	type sl struct {
+		s      []float64
+		orig   bool // a view of the original array
+	}
+	sls := []sl{{a0[:len0], true}}
+	var ops []string
+	var descOps []string
+	next := 100.0
+	for k := 0; k < r.Range(2, 10); k++ {
+		src := r.Intn(len(sls))
+		cur := sls[src]
+		switch r.Intn(3) {
+		case 0: // s[i:j]
+			if cap(cur.s) == 0 {
+				continue
+			}
+			i0 := r.Range(0, len(cur.s))
+			j0 := r.Range(i0, cap(cur.s))
+			sls = append(sls, sl{cur.s[i0:j0], cur.orig})
+			ops = append(ops, fmt.Sprintf("(OSub2 %d %d %d)", src, i0, j0))
+			descOps = append(descOps, fmt.Sprintf("s%d = s%d[%d:%d]", len(sls)-1, src, i0, j0))
+		case 1: // s[i:j:k]
+			if cap(cur.s) == 0 {
+				continue
+			}
+			i0 := r.Range(0, len(cur.s))
+			j0 := r.Range(i0, cap(cur.s))
+			k0 := r.Range(j0, cap(cur.s))
+			if r.P(1, 2) {
+				k0 = j0 // the Split idiom d[i:j:j]
+			}
+			sls = append(sls, sl{cur.s[i0:j0:k0], cur.orig})
+			ops = append(ops, fmt.Sprintf("(OSub3 %d %d %d %d)", src, i0, j0, k0))
+			descOps = append(descOps, fmt.Sprintf("s%d = s%d[%d:%d:%d]", len(sls)-1, src, i0, j0, k0))
+		default: // append
+			if !cur.orig {
+				continue
+			}
+			m := r.Range(1, 3)
+			xs := make([]float64, m)
+			for q := range xs {
+				xs[q] = next
+				next++
+			}
+			res := append(cur.s, xs...)
+			// the result is a view of the original array only if no allocation happened
+			inPlace := len(cur.s)+m <= cap(cur.s)
+			sls = append(sls, sl{res, inPlace})
+			ops = append(ops, fmt.Sprintf("(OApp %d %s)", src, cq.Floats(xs)))
+			descOps = append(descOps, fmt.Sprintf("s%d = append(s%d, %v)", len(sls)-1, src, xs))
+		}
+	}
+	var views []string
+	for _, v := range sls {
+		views = append(views, cq.Floats(v.s))
+	}
+	term := fmt.Sprintf("KSlice %s %d%%nat %s %s", cq.Floats(a0), len0, cq.List(ops), cq.List(views))
+	o.Emit(out.Case{I: i, Fam: "slices", Coq: term, Desc: map[string]interface{}{"ops": descOps, "path": "", "panic": ""}})
+}
+
 func main() {
 	seed := flag.Uint64("seed", 1, "")
 	n := flag.Int("n", 100, "")
@@ -689,6 +759,10 @@ func main() {
 		var term, fam, pmsg string
 		arcs := r.P(1, 2)
 		sel := r.Intn(100)
+		if i%25 == 24 {
+			sliceCase(o, r, i)
+			continue
+		}
 		switch {
 		case sel < 50: // plain history
 			ops := genHistory(r, 40, arcs)
